@@ -250,6 +250,9 @@ func hNewIterator(levels []mergingIterLevel, readSeq base.SeqNum, opts *IterOpti
 	if opts != nil {
 		it.opts = *opts
 	}
+	if hUseDB {
+		return hNewIteratorDB(levels, readSeq, opts)
+	}
 	if hUseLevelIter {
 		hWithLevelIter(levels, it.opts)
 	}
